@@ -15,3 +15,6 @@ reg("C18", "other", [T.t_tname], "dev", "dev")
 reg("C10", "other", [T.t_rc], "dev", "dev")
 reg("C01", "other", [T.t_bij], "dev", "dev")
 reg("C04", "other", [T.t_codes], "dev", "dev")
+import r_len as L
+reg("C02", "proof", [L.l_eq, L.l_hdr, L.l_fixed, L.s_dbg], "dev", "dev")
+PROPS["C10"]["rules"].append(L.t_ctl)
